@@ -44,6 +44,7 @@ type input struct {
 	Dest   string `json:"dest,omitempty"`  // glue: destination shape
 	NotOct bool   `json:"notoct,omitempty"`
 	T      int64  `json:"t,omitempty"` // cron: start instant (unix seconds)
+	Script []scriptItem `json:"script,omitempty"` // header: the reader script
 }
 
 const (
@@ -62,7 +63,7 @@ type outcome struct {
 func (o outcome) coq() string {
 	switch o.cls {
 	case clsOk:
-		return "(OOk " + hx.CoqZs(o.vals) + ")"
+		return "(OOk " + rle(o.vals, "Z", "repZ") + ")"
 	case clsErr:
 		return "OErr"
 	default:
@@ -244,6 +245,8 @@ func gen(ctx *core.Ctx) {
 	genFuzz(ctx)
 	genStructured(ctx)
 	genDegenerate(ctx)
+	genHeader(ctx)
+	genPK(ctx)
 	ctx.Sink.Extra["hangs_per_entry_point"] = hangs
 	ctx.Sink.Extra["excluded"] = []string{
 		"cipher.AEAD Seal/Open called directly with a wrong-size nonce (standard-library contract)",
